@@ -137,7 +137,7 @@ def cases(tier, seed, prop):
         o13 = dict(base_opt('C04'), names=['div', 'p', 'span', 'ul', 'li', 'em', 'b', 'hr', 'br', 'strong', 'section', 'x', 'table', 'tr', 'td'], p_attr=.5, p_text=.4,
                    attr_pool=[('attr', 'title', None, None), ('attr', 'lang', None, None), ('attr', 'data-x', 'y', 'raw'), ('attr', 'title', '${1}', 'dq'), ('attr', 'alt', '${2:ph} ${1}', 'dq'),
                               ('attr', 'rel', 'a${3}b', 'dq'), ('attr', 'href', '', 'dq')],
-                   text_pool=['txt', '${1}', '${1:one} and ${2}', 'l1\nl2', '${2:b}${1:a}', 'a ${0} z', 'x ${3:c}', 'foo\nbar ${1}'])
+                   text_pool=['txt', '${1}', '${1:one} and ${2}', 'l1\nl2', '${2:b}${1:a}', 'a ${0} z', 'x ${3:c}', 'foo\nbar ${1}', 'Tom & Jerry', 'a & b\nc & d'])
         for _ in range(n):
             c = {}
             r = rnd.random()
@@ -154,15 +154,28 @@ def cases(tier, seed, prop):
             seq = mk.gen_seq(rnd, o13, [rnd.randint(1, 7)], 2)
             tidy_C13(seq)
             out.append({'seq': seq, 'c': c, 'g': 'random'})
+        # stylesheet syntaxes: snippets whose bodies span lines, numeric values, fields; positions only
+        for _ in range(n // 6):
+            c = {'type': 'stylesheet', 'syntax': rnd.choice(['css', 'scss', 'sass', 'less', 'stylus'])}
+            o = {}
+            if rnd.random() < .6: o['output.newline'] = rnd.choice(['\n', '\r\n', '\r'])
+            if rnd.random() < .5: o['output.baseIndent'] = rnd.choice(['', '  ', '\t'])
+            if rnd.random() < .3: o['output.indent'] = rnd.choice(['\t', '  '])
+            if o: c['options'] = o
+            ab = '+'.join(rnd.choice(['@kf', '@m', '@f', '@ff', 'p10', 'm5-10', 'c#f', 'pos', 'bd', 'anim', 'trf:r', '@i', 'lg(top, #f, #0)', 'd:n', 'bg']) for _ in range(rnd.randint(1, 3)))
+            out.append({'s': ab, 'c': c, 'g': 'stylesheet'})
+        for c in out:
+            if 'seq' in c: c['s'] = mk.print_seq(c['seq'])
+        return out
     elif prop == 'C14':
         out = cases_C14(tier, rnd)
         return out
     elif prop in ('C12', 'C15'):
         n = 3000 if tier == 'quick' else 40000
         names = ['div', 'p', 'span', 'ul', 'li', 'em', 'b', 'hr', 'br', 'strong', 'section', 'x', 'table', 'tr', 'td', 'article', 'body', 'i', 'h1', 'nav']
-        o12 = dict(base_opt('C04'), names=names, p_attr=.3, p_text=.35, p_noname=.1,
-                   attr_pool=[('attr', 'title', 'v', 'raw'), ('attr', 'data-x', 'a b', 'dq'), ('attr', 'lang', None, None), ('attr', 'rel', 'e', 'expr')] if prop == 'C12' else [('attr', 'title', 'v', 'raw'), ('attr', 'data-x', 'a b', 'dq')],
-                   text_pool=['txt', 'a b', 'l1\nl2', 'one\ntwo\nthree', 'x', ' sp '] if prop == 'C12' else ['txt', 'a b', 'l1\nl2', 'one\ntwo\nthree', 'x'])
+        o12 = dict(base_opt('C04'), names=names, p_attr=.3, p_text=.35, p_noname=.1, p_void_child=.25,
+                   attr_pool=[('attr', 'title', 'v', 'raw'), ('attr', 'data-x', 'a b', 'dq'), ('attr', 'lang', None, None), ('attr', 'rel', 'e', 'expr')] if prop == 'C12' else [('attr', 'title', 'v', 'raw'), ('attr', 'data-x', 'a b', 'dq'), ('attr', 'd', 'M0', 'raw'), ('attr', 'as', 'font', 'raw'), ('attr', 'a', '1', 'raw'), ('attr', 's', 'z', 'dq')],
+                   text_pool=['txt', 'a b', 'l1\nl2', 'one\ntwo\nthree', 'x', ' sp '] if prop == 'C12' else ['txt', 'a b', 'l1\nl2', 'one\ntwo\nthree', 'x', 'first\rsecond', 'a\x0bb', 'p\r\nq'])
         for _ in range(n):
             seq = mk.gen_seq(rnd, o12, [rnd.randint(1, 8)], 2)
             tidy_C13(seq)
@@ -474,8 +487,9 @@ def expected_fields(forest, indent_syntax, acc, base):
     return acc
 
 
-def run_C13(case):
-    """expand with recording callbacks; returns (outcome, calls)"""
+def run_C13(case, escape=False):
+    """expand with recording callbacks; returns (outcome, calls). With `escape` the text callback changes the length of what it
+    is given (`&` -> `&amp;`), as an editor's escaping callback would"""
     from emmet import expand
     from emmet.scanner import ScannerException
     from emmet.token_scanner import TokenScannerException
@@ -485,7 +499,8 @@ def run_C13(case):
         r = field(index, placeholder); calls.append(('field', r, kw.get('offset'), kw.get('line'), kw.get('column'))); return r
 
     def rec_text(text, **kw):
-        calls.append(('text', text, kw.get('offset'), kw.get('line'), kw.get('column'))); return text
+        r = text.replace('&', '&amp;') if escape else text
+        calls.append(('text', r, kw.get('offset'), kw.get('line'), kw.get('column'))); return r
     c = mkcfg(case['c']); c['options']['output.field'] = rec_field; c['options']['output.text'] = rec_text
     try: return ('ok', expand(case['s'], c)), calls
     except ScannerException as e: return ('scanner', e.pos), calls
@@ -494,7 +509,7 @@ def run_C13(case):
     except Exception as e: return ('internal', type(e).__name__), calls
 
 
-def oracle_C13(case, o, calls):
+def oracle_C13(case, o, calls, escaped=False):
     from emmet.config import Config
     if o[0] != 'ok': return ['no-output| expand(%r) -> %s %s' % (case['s'], o[0], o[1])]
     final = o[1]; v = []
@@ -508,10 +523,11 @@ def oracle_C13(case, o, calls):
         ecol = off - (last + len(nl)) if last >= 0 else off
         if (line, col) != (eline, ecol):
             v.append('line-column| %s callback for %r at offset %d: reported line %r column %r, it ends up at line %d column %d' % (kind, piece, off, line, col, eline, ecol)); break
-    forest = mk.unroll(mk.flat(case['seq']))
-    want = expected_fields(forest, False, [], [1])
-    got = [int(x) for x in IDX_RE.findall(final)]
-    if got != want: v.append('numbering| expand(%r, %r): tabstop indices in document order %r, expected %r' % (case['s'], case['c'], got, want))
+    if 'seq' in case and not escaped:
+        forest = mk.unroll(mk.flat(case['seq']))
+        want = expected_fields(forest, False, [], [1])
+        got = [int(x) for x in IDX_RE.findall(final)]
+        if got != want: v.append('numbering| expand(%r, %r): tabstop indices in document order %r, expected %r' % (case['s'], case['c'], got, want))
     return v
 
 
@@ -540,6 +556,20 @@ def cases_C14(tier, rnd):
                     if CHAIN_DEF.match(v):
                         out.append({'s': k + '>b', 'alt': v + '>b', 'c': c, 'g': 'children'})
                         out.append({'s': 'p>' + k + '>b+i', 'alt': 'p>(' + v + '>b+i)', 'c': c, 'g': 'children'})
+    # multi-root and multi-level user definitions: what is written on the alias goes to EVERY top-level element, children into the
+    # deepest LAST element
+    multi = {'two': 'a+b', 'trio': 'x+y.k+z', 'card': 'div.card>h2+p', 'deep': 'ul>li>em+b>i', 'pair': 'p>span+q>s'}
+    for k, v in multi.items():
+        tops = v.split('+') if '>' not in v else None
+        c = {'snippets': dict(multi)}
+        if tops:
+            out.append({'s': k + '{t}', 'alt': '+'.join(t + '{t}' for t in tops), 'c': c, 'g': 'multiroot'})
+            out.append({'s': k + '/', 'alt': '+'.join(t + '/' for t in tops), 'c': c, 'g': 'multiroot'})
+            out.append({'s': k + '.z[q=r]', 'alt': '+'.join(t + '.z[q=r]' for t in tops), 'c': c, 'g': 'multiroot'})
+        out.append({'s': k + '>u', 'alt': v + '>u', 'c': c, 'g': 'deepest-last'})
+        out.append({'s': 'w>' + k + '>u+v', 'alt': 'w>(' + v + '>u+v)', 'c': c, 'g': 'deepest-last'})
+    for k, v in [('ri:a', None), ('!', None), ('doc', None)]:
+        pass
     # user tables, including self-referencing and mutually recursive ones: resolution must end
     names = ['s1', 's2', 's3', 's4', 's5', 'x', 'y']
     n = 300 if tier == 'quick' else 3000
@@ -619,6 +649,16 @@ def oracle_C12(case, o):
     if opt.get('output.format') and not (names & set(x.lower() for x in opt.get('output.formatSkip'))):     # no element exempted through formatSkip
         nl = opt.get('output.newline'); ind = opt.get('output.indent'); bi = opt.get('output.baseIndent')
         lines = o[1].split(nl)
+        # which open tags are leaves (a void / self-closed element without children is never closed): from the denoted tree, in
+        # document order (= order of the opening tags)
+        leafs = []
+
+        def classify(f):
+            for el in f:
+                leafs.append((el['name'].lower() in mk.VOID or el['slash']) and not el['kids']); classify(el['kids'])
+        classify(forest)
+        leaf = set(i for i, b_ in enumerate(leafs) if b_)
+        ti = 0
         depth = 0
         for li, line in enumerate(lines):
             body = line[len(bi):] if li > 0 else line
@@ -632,7 +672,9 @@ def oracle_C12(case, o):
                 if ind and k != want and not body.strip():
                     v.append('blank-line| expand(%r, %r): white-space-only line %d %r at %d units, %d elements are open there' % (case['s'], case['c'], li, line, k, want)); break
             for t in mk.read_html(line):
-                if t[0] == 'open' and not t[3] and t[1].lower() not in mk.VOID: depth += 1
+                if t[0] == 'open':
+                    if ti not in leaf: depth += 1
+                    ti += 1
                 elif t[0] == 'close': depth -= 1
     return v
 
@@ -659,14 +701,15 @@ def lines_of(forest, sy, depth, acc):
             if sy == 'haml': head += '(' + ' '.join(parts) + ')'
             elif sy == 'pug': head += '(' + ', '.join(parts) + ')'
             else: head += ' ' + ' '.join(parts)
-        void = name.lower() in mk.VOID or el['slash']
+        void = (name.lower() in mk.VOID or el['slash']) and not el['kids']      # a self-closing element that was given children is an ordinary parent
         text = el['text']
         if void: head += '/' if sy in ('haml', 'slim') else ''
-        if text is not None and '\n' not in text: acc.append((depth, head + ' ' + text))
+        tlines = text.splitlines() if text is not None else []
+        if text is not None and len(tlines) <= 1: acc.append((depth, head + ' ' + text))
         else: acc.append((depth, head))
-        if text is not None and '\n' in text:
-            mx = max(len(x) for x in text.split('\n'))
-            for tl in text.split('\n'):
+        if text is not None and len(tlines) > 1:
+            mx = max(len(x) for x in tlines)
+            for tl in tlines:
                 if sy == 'haml': acc.append((depth + 1, tl.ljust(mx) + ' |'))      # lines padded to the same width before the ` |` marker
                 else: acc.append((depth + 1, '| ' + tl))
         lines_of(el['kids'], sy, depth + 1, acc)
@@ -700,6 +743,9 @@ def run(case, prop):
     if prop == 'C13':
         o, calls = run_C13(case)
         viol = oracle_C13(case, o, calls)
+        if '&' in case['s']:
+            o2, calls2 = run_C13(case, escape=True)
+            viol += oracle_C13(case, o2, calls2, escaped=True)
         tags = {'gen:' + case['g']: 1, 'outcome:' + o[0]: 1, 'syntax:' + case['c'].get('syntax', '-'): 1, 'callbacks': len(calls)}
         return line_of(o), viol[:4], tags
     o = outcome(case['s'], mkcfg(case['c']))
